@@ -143,6 +143,21 @@ func directedHistories() map[string]History {
 		[]BlockSpec{blk(tx(sp(adminID, 5, 6*M, true)))}, empty(3, 1))}
 	// an admission corrected within the same unit of power in the same block
 	out["S24-admission-corrected-within-a-power-unit"] = History{g3, cat(empty(1, 1), []BlockSpec{blk(tx(createMsg(3, 3))), blk(tx(sp(adminID, 3, 5*M, true)), tx(sp(adminID, 3, 5*M+400_000, true)))}, empty(3, 1))}
+	// double-sign evidence (x/evidence, same BeginBlock as x/slashing): heights are block indices + 1, times the block times (dt = 1)
+	evAt := func(cons int, h int64, power int64) []EvSpec { return []EvSpec{{Cons: cons, Height: h, Time: h, Power: power}} }
+	// ... the double signer is slashed, jailed and tombstoned; it cannot unjail; the admin cannot re-power it
+	out["S25-double-sign-then-unjail-and-setpower"] = History{gj, cat(empty(3, 1), []BlockSpec{{Dt: 1, Evidence: evAt(0, 3, 10)}}, empty(1, 1),
+		[]BlockSpec{{Dt: 10, Txs: []TxSpec{tx(MsgSpec{Kind: "unjail", Sender: 0, Val: 0})}}, blk(tx(sp(adminID, 0, 12*M, true)))}, empty(2, 1), empty(2, 30))}
+	// ... removed by the admin in the very block that punishes it (x/staking still lists it as Bonded there)
+	out["S26-double-sign-and-removal-same-block"] = History{gj, cat(empty(3, 1), []BlockSpec{{Dt: 1, Evidence: evAt(1, 3, 10), Txs: []TxSpec{tx(rm(adminID, 1))}}}, empty(2, 1),
+		[]BlockSpec{{Dt: 10, Txs: []TxSpec{tx(MsgSpec{Kind: "unjail", Sender: 1, Val: 1})}}}, empty(2, 30), []BlockSpec{blk(tx(createMsg(1, 1))), blk(tx(sp(adminID, 1, 3*M, true)))}, empty(3, 1))}
+	// ... evidence about a validator the admin removed (unbonding, no tokens), and a second entry about the same validator
+	out["S27-double-sign-of-a-removed-validator"] = History{gj, cat(empty(2, 1), []BlockSpec{blk(tx(rm(adminID, 2)))}, empty(1, 1),
+		[]BlockSpec{{Dt: 1, Evidence: evAt(2, 3, 10)}, {Dt: 1, Evidence: evAt(2, 3, 10)}}, empty(2, 1), empty(2, 30))}
+	// ... about a validator jailed for downtime (slashed from the not-bonded pool once it is unbonding), then its unjail attempt
+	out["S28-double-sign-of-a-jailed-validator"] = History{gj, cat(empty(1, 1), jail0, empty(1, 1), []BlockSpec{{Dt: 1, Evidence: evAt(0, 4, 10)}}, []BlockSpec{unjail0}, empty(2, 1), empty(2, 30))}
+	// ... two entries in one block, one with a power far above what the validator holds (the burn is capped by its tokens)
+	out["S29-two-double-signers-one-block"] = History{gj, cat(empty(3, 1), []BlockSpec{{Dt: 1, Evidence: []EvSpec{{Cons: 0, Height: 3, Time: 3, Power: 9_000_000_000_000}, {Cons: 1, Height: 2, Time: 2, Power: 1}}}}, empty(3, 1), empty(2, 30))}
 	upCreate := createMsg(3, 4)
 	upCreate.Upper = true
 	upSp := sp(adminID, 3, 2*M, true)
@@ -340,6 +355,34 @@ func historyTags(h History, tr *Trace) []string {
 		for id, pv := range prev.Vals {
 			if _, ok := bt.After.Vals[id]; !ok && pv.Status != 3 {
 				maturities++
+			}
+		}
+		for _, e := range bt.Spec.Evidence {
+			tags["evidence"] = true
+			if vid, ok := consOwner(prev)[e.Cons]; ok {
+				pv, v := prev.Vals[vid], bt.After.Vals[vid]
+				switch {
+				case pv != nil && pv.Status == 1:
+					tags["evidence:unbonded-ignored"] = true
+				case prev.Sign[e.Cons] != nil && prev.Sign[e.Cons].Tomb:
+					tags["evidence:already-tombstoned"] = true
+				case pv != nil && pv.Jailed:
+					tags["evidence:on-jailed"] = true
+				case pv != nil && v != nil && !v.Jailed:
+					tags["evidence:stale-ignored"] = true
+				default:
+					tags["evidence:jails"] = true
+				}
+				if pv != nil && v != nil && v.Tokens != pv.Tokens {
+					tags["evidence:slashed"] = true
+				}
+			}
+			for _, t := range bt.Spec.Txs {
+				for _, m := range t.Msgs {
+					if vid, ok := consOwner(prev)[e.Cons]; ok && m.Val == vid && (m.Kind == "setpower" || m.Kind == "remove" || m.Kind == "unjail" || m.Kind == "create") {
+						tags["evidence:operation-on-double-signer-same-block"] = true
+					}
+				}
 			}
 		}
 		seen := map[int]int{}
